@@ -6,7 +6,7 @@
    primitives, the PSI helpers and the time-stamp readers are compared on ALL lists unless a hypothesis says otherwise.
    The Res-returning copies (idx = checked index) answer `Ok (total copy)`: on a 188-byte array no index can panic. *)
 From Gots Require Import Base.Prelude Base.NRange Model.Pts Model.Packet Model.AF Model.AFfn Model.Psi Model.Pat Model.Pmt Model.Pes
-  Model.Accumulator Model.Create Model.Scte Proofs.PmtBase Proofs.PmtTotal.
+  Model.Accumulator Model.Create Model.Scte Model.ScteEnc Proofs.PmtBase Proofs.PmtTotal.
 Local Open Scope N_scope.
 
 Lemma len188 (p : bytes) : length p = 188%nat -> len p = 188.
@@ -275,3 +275,23 @@ Proof. intros HL HP HB HS. unfold Pmt.write_packet, Accumulator.write_packet, Ac
   - destruct a as [buf st]. cbn in C. subst st. reflexivity. Qed.
 Lemma done_func_answers b : is_bytes b -> exists d, Pmt.done_func b = Ok d /\ pmt_pred b = (d, None).
 Proof. intros H. destruct (done_func_ok b H) as [d E]. exists d. split; [exact E|]. unfold pmt_pred. rewrite E. reflexivity. Qed.
+
+(* ================================================================== psi.TableHeader.Data()
+   Psi.table_header_data (Model/Psi.v) versus the three header bytes written inline by ScteEnc.update_data *)
+Lemma psi_table_header_data_bytes tid ssi pi sl :
+  Psi.table_header_data {| Psi.th_tid := tid; Psi.th_ssi := ssi; Psi.th_pi := pi; Psi.th_sl := sl |} =
+  [tid; 128 * b2n ssi + 64 * b2n pi + 48 + (sl / 256) mod 4; sl mod 256].
+Proof. unfold Psi.table_header_data. cbn [Psi.th_tid Psi.th_ssi Psi.th_pi Psi.th_sl].
+  assert (X : N.land (w8 (N.shiftr sl 8)) 3 = (sl / 256) mod 4).
+  { change 3 with (N.ones 2). rewrite N.land_ones. unfold w8. rewrite N.shiftr_div_pow2.
+    change (2 ^ 8) with 256. change (2 ^ 2) with 4. lia. }
+  rewrite X. assert (B : (sl / 256) mod 4 < 4) by lia. set (x := (sl / 256) mod 4) in *. unfold w8.
+  assert (C : x = 0 \/ x = 1 \/ x = 2 \/ x = 3) by lia.
+  destruct ssi, pi; destruct C as [C|[C|[C|C]]]; rewrite C; reflexivity. Qed.
+(* the encoder writes exactly psi.TableHeader.Data() of (table_id, flags, the section_length it has just computed) *)
+Lemma update_data_header st : exists rest,
+  fst (ScteEnc.update_data st) =
+  Psi.table_header_data {| Psi.th_tid := Scte.s_tid st; Psi.th_ssi := Scte.s_ssi st; Psi.th_pi := Scte.s_pi st;
+                           Psi.th_sl := Scte.s_slen (snd (ScteEnc.update_data st)) |} ++ rest.
+Proof. rewrite psi_table_header_data_bytes. unfold ScteEnc.update_data. cbv zeta. cbn [fst snd Scte.s_slen].
+  eexists. rewrite <- !app_assoc. cbn [app]. reflexivity. Qed.
